@@ -322,6 +322,38 @@ def assert_pure(run, model, rule="C15.assert-pure"):
     return n
 
 
+def assert_after_search(run, model, rule="C15.assert-pure"):
+    """``assert found is not None`` where every definition of ``found`` that reaches the assert is the constant
+    None/False: the assert fails whenever it is reached -- a raise in disguise, like ``assert False`` (the typical
+    case: the assert that follows a search loop ``found = None; for x in xs: if match(x): found = x; break`` moved
+    *into* the loop, where it is reached only by the elements that did not match: valid input dies with AssertionError
+    in a normal interpreter and passes under -O)."""
+    from ..flow import get_flow
+
+    n_seen = 0
+    for qual, fi in sorted(model.functions.items()):
+        if not any(isinstance(x, ast.Assert) for x in ast.walk(fi.node)):
+            continue
+        flow = get_flow(model, fi)
+        for n in flow.cfg.nodes:
+            if not (n.kind == "test" and isinstance(n.stmt, ast.Assert) and n.ast is n.stmt.test):
+                continue
+            t = n.ast
+            name = None
+            if isinstance(t, ast.Name):
+                name = t.id
+            elif isinstance(t, ast.Compare) and len(t.ops) == 1 and isinstance(t.ops[0], ast.IsNot) and isinstance(t.left, ast.Name) and isinstance(t.comparators[0], ast.Constant) and t.comparators[0].value is None:
+                name = t.left.id
+            if name is None:
+                continue
+            n_seen += 1
+            defs = list(flow.defs_at(n, name))
+            if defs and all(d.kind == "assign" and not d.path and isinstance(d.value, ast.Constant) and d.value.value in (None, False) for d in defs):
+                d = defs[0]
+                run.violation(rule, "%s:assert" % fi.qual, "`assert %s` is reached only with `%s = %s` (line %s): it fails whenever it is reached -- a raise in disguise: the input that gets here is rejected with AssertionError in a normal interpreter and accepted under -O" % (src_of(t), name, src_of(d.value), d.node.lineno), fi.loc(n), None, first_line(t))
+    run.extra["asserts_on_names_checked"] = n_seen
+
+
 def run(run, model):
     run.do(early_return, model)
     run.do(defaults, model)
@@ -332,6 +364,7 @@ def run(run, model):
     # rejections are raised, in both interpreter modes (the 8-row table of the invariant evaluation)
     run.do(inv.self_rule, model, "C15.rejection-raised")
     n = assert_pure(run, model)
+    run.do(assert_after_search, model)
     if n < 40:
         raise AnalysisError("only %d assert statements found (60+ confirmed by hand)" % n)
     run.minimum("C15.early-return", 8, "4 decorators x (__init__, __call__)")
